@@ -28,6 +28,115 @@ let c16_show_sem = function
   | CsBraceOpen -> "{" | CsBraceClose -> "}"
   | CsImage d -> "img:" ^ hexbytes d
 
+(* ---- page-content lists (Struct/ContentList.v, Struct/ContentListSpec.v): same syntax as harness/drv_content.cc
+   value = r<k> | n | o | d | a(value.value...);  pages = value/value/... ('-' = no /Contents);
+   objects = k=s<hex> | k=s- | k=a(...) | k=n | k=o | k=d joined by ',' ('-' = none) *)
+let c16_parse_value (s : string) : c16_cv =
+  let i = ref 0 in
+  let rec value () =
+    let c = s.[!i] in
+    incr i;
+    match c with
+    | 'r' ->
+      let j = ref !i in
+      while !j < String.length s && s.[!j] >= '0' && s.[!j] <= '9' do incr j done;
+      let k = int_of_string (String.sub s !i (!j - !i)) in
+      i := !j; CvRef (n_of_int k)
+    | 'n' -> CvNull
+    | 'o' | 'd' -> CvOther
+    | 'a' ->
+      incr i;   (* '(' *)
+      let items = ref [] in
+      while s.[!i] <> ')' do
+        items := value () :: !items;
+        if s.[!i] = '.' then incr i
+      done;
+      incr i;
+      CvArr (List.rev !items)
+    | _ -> failwith "bad value syntax"
+  in
+  value ()
+
+let c16_parse_pages (s : string) : c16_cv list =
+  List.map (fun p -> if p = "-" then CvNull else c16_parse_value p) (String.split_on_char '/' s)
+
+let c16_parse_store (s : string) : (n * c16_co) list =
+  if s = "-" then [] else
+  List.map (fun item ->
+    let eq = String.index item '=' in
+    let k = int_of_string (String.sub item 0 eq) in
+    let body = String.sub item (eq + 1) (String.length item - eq - 1) in
+    let o =
+      if body.[0] = 's' then CoStream (if body = "s-" then [] else unhexbytes (String.sub body 1 (String.length body - 1)))
+      else match c16_parse_value body with
+        | CvArr items -> CoArr items
+        | CvNull -> CoNull
+        | _ -> CoOther in
+    (n_of_int k, o)) (String.split_on_char ',' s)
+
+let c16_hex_or_dash (l : n list) : string = if l = [] then "-" else hexbytes l
+
+let c16_show_warns (ws : c16_cwarn list) : string =
+  if ws = [] then "-" else
+  String.concat "." (List.map (function CwNonStreamItem i -> "i" ^ string_of_int (int_of_n i)
+                                      | CwThrown i -> "t" ^ string_of_int (int_of_n i) | CwNeither -> "x") ws)
+
+let c16_show_ids (l : n list) : string =
+  if l = [] then "-" else String.concat "." (List.map (fun k -> string_of_int (int_of_n k)) l)
+
+let c16_show_sems = function
+  | None -> "invalid"
+  | Some l -> if l = [] then "-" else String.concat " " (List.map c16_show_sem l)
+
+(* one field per page; every field ends in ':' + the warnings of arrayOrStreamToStreamArray for that page *)
+let c16_per_page ?(warns = c16_page_warnings) (args : string list) (f : (n * c16_co) list -> c16_cv -> string) : string =
+  match args with
+  | pages :: objs :: _ ->
+    let st = c16_parse_store objs in
+    String.concat "/" (List.map (fun v ->
+      let ws = warns st v in
+      match c16_first_thrown ws with
+      | Some i -> "exc:i" ^ string_of_int (int_of_n i) ^ ":" ^ c16_show_warns (c16_warnings_issued ws)
+      | None -> f st v ^ ":" ^ c16_show_warns ws) (c16_parse_pages pages))
+  | _ -> "?args"
+
+let () =
+  register "c16pglist" (fun args -> c16_per_page args (fun st v -> c16_show_ids (c16_page_streams st v)));
+  register "c16pgpipe" (fun args -> c16_per_page args (fun st v -> c16_hex_or_dash (c16_page_content st v)));
+  register "c16pgcoalesce" (fun args -> c16_per_page ~warns:c16_coalesce_warnings args (fun st v ->
+    match c16_coalesce_contents st v with None -> "K" | Some d -> "S" ^ c16_hex_or_dash d));
+  register "c16pgfilter" (fun args -> c16_per_page args (fun st v ->
+    let ((out, any), last) = c16_page_filter st v in
+    c16_hex_or_dash out ^ " " ^ c16_b any ^ " " ^ c16_b last));
+  register "c16pgtoks" (fun args -> c16_per_page args (fun st v ->
+    let toks = c16_page_tokens st v in
+    if toks = [] then "-" else
+    String.concat ";" (List.map (fun (t : token) ->
+      c16_tt_name t.tok_type ^ "," ^ hexbytes t.tok_value ^ "," ^ hexbytes t.tok_raw) toks)));
+  (* addContentTokenFilter = coalesceContentStreams, then the filter on the single stream *)
+  register "c16pgaddtf" (fun args -> c16_per_page ~warns:c16_coalesce_warnings args (fun st v ->
+    match c16_add_token_filter st v with
+    | None -> "exctype"
+    | Some ((out, _), _) -> c16_hex_or_dash out));
+  register "c16pgparse" (fun args -> c16_per_page args (fun st v -> string_of_int (List.length (c16_page_content st v))));
+  register "c16pgadd" (fun args -> match args with
+    | _ :: _ :: first :: _ -> c16_per_page args (fun st v ->
+        let l = c16_add_page_contents st v (first = "1") (n_of_int 999999999) in
+        String.concat "." (List.map (fun k -> let i = int_of_n k in if i = 999999999 then "N" else string_of_int i) l)
+        ^ ";" ^ c16_hex_or_dash (c16_add_page_content st v (first = "1") [n_of_int 113; n_of_int 10]))
+    | _ -> "?args");
+  (* specification side: no warnings field *)
+  register "c16pgsem" (fun args -> match args with
+    | pages :: objs :: _ ->
+      let st = c16_parse_store objs in
+      String.concat "|" (List.map (fun v -> c16_show_sems (c16_spec_page st v)) (c16_parse_pages pages))
+    | _ -> "?args");
+  register "c16pgwf" (fun args -> match args with
+    | pages :: objs :: _ ->
+      let st = c16_parse_store objs in
+      String.concat "/" (List.map (fun v -> c16_b (c16_spec_contents_wf st v)) (c16_parse_pages pages))
+    | _ -> "?args")
+
 let () =
   register "c16norm" (fun args -> match args with
     | h :: _ ->
